@@ -22,59 +22,96 @@
 #define B0 1
 #endif
 #define K2(name) CAT(CAT(CAT(k_,name),_),CAT(NA,NB))
+#ifdef SYMSHAPE   /* shape-only mode: extents symbolic 1..MAXE (dims NA, NB stay per-query constants), no element is read (index of a wrong length) */
+#undef A0
+#undef A1
+#undef A2
+#undef B0
+#undef B1
+#undef B2
+#define A0 1
+#define A1 1
+#define A2 1
+#define B0 1
+#define B1 1
+#define B2 1
+#ifndef MAXE
+#define MAXE 4
+#endif
+#define NIDX(n) 7
+#define RET_OK 2
+#define AGREE(c, msg) ASSUME(c)
+#define EL_ASSERT(c, msg) ((void)0)
+#else
+#define NIDX(n) (n)
+#define RET_OK 1
+#define AGREE(c, msg) ASSERT(c, msg)
+#define EL_ASSERT(c, msg) ASSERT(c, msg)
+#endif
 static u64 sa[3] = {A0, A1, A2}, sb[3] = {B0, B1, B2};
 static u8 da[16], db[16];
 static u64 idx[4], os[4], od; static u8 out;
 /* draws data and an index inside the expected shape e (dim ne) */
+#ifdef SYMSHAPE
+static void sym_shapes(void){ for (u64 i = 0; i < 3; i++){ u64 v = in_u64(1, MAXE); if (i < NA) sa[i] = v; } for (u64 i = 0; i < 3; i++){ u64 v = in_u64(1, MAXE); if (i < NB) sb[i] = v; }
+  ASSUME(numel(sa, NA) <= 16 && numel(sb, NB) <= 16); }
+static void draw(const u64* e, u64 ne){ (void)e; (void)ne; }
+#else
+static void sym_shapes(void){}
 static void draw(const u64* e, u64 ne){ in_data8(da, 16); in_data8(db, 16); for (u64 i = 0; i < 4; i++){ idx[i] = in_u64(0, 15); ASSUME(i < ne ? idx[i] < e[i] : idx[i] == 0); } }
-static void check_shape(int r, const u64* e, u64 ne){ ASSERT(r == 1, "has a value"); ASSERT(od == ne, "dim of the NumPy result"); for (u64 i = 0; i < 4; i++) if (i < ne) ASSERT(os[i] == e[i], "extent of the NumPy result"); }
+#endif
+static void check_shape(int r, const u64* e, u64 ne){ ASSERT(r == RET_OK, "has a value"); ASSERT(od == ne, "dim of the NumPy result"); for (u64 i = 0; i < 4; i++) if (i < ne) ASSERT(os[i] == e[i], "extent of the NumPy result"); }
 static u64 flat(const u64* i, const u64* s, u64 n){ u64 o = 0; for (u64 t = 0; t < 3; t++) if (t < n) o = o * s[t] + i[t]; return o; }
 
 #if defined(R_OUTER)
 void h_outer(void){   /* np.outer flattens both operands: out[i,j] = a.flat[i] * b.flat[j] */
+  sym_shapes();
   u64 e[2] = { numel(sa, NA), numel(sb, NB) }; draw(e, 2);
-  int r = K2(outer)(sa, da, sb, db, idx, 2, os, &od, &out); check_shape(r, e, 2);
-  ASSERT(out == (u8)(da[idx[0]] * db[idx[1]]), "outer element");
-  OBS(out); REACHED();
+  int r = K2(outer)(sa, da, sb, db, idx, NIDX(2), os, &od, &out); check_shape(r, e, 2);
+  EL_ASSERT(out == (u8)(da[idx[0]] * db[idx[1]]), "outer element");
+  OBS(out); OBS(od); OBS(os[0]); REACHED();
 }
 #elif defined(R_VECDOT)
 void h_vecdot(void){  /* broadcast, multiply, sum over the last axis */
-  u64 be[4] = {0}, nbe = 0; int ok = np_broadcast(sa, NA, sb, NB, be, &nbe); ASSERT(ok, "query shapes broadcast");
+  sym_shapes();
+  u64 be[4] = {0}, nbe = 0; int ok = np_broadcast(sa, NA, sb, NB, be, &nbe); AGREE(ok, "query shapes broadcast");
   u64 ne = nbe - 1; draw(be, ne);
-  int r = K2(vecdot)(sa, da, sb, db, idx, ne, os, &od, &out); check_shape(r, be, ne);
+  int r = K2(vecdot)(sa, da, sb, db, idx, NIDX(ne), os, &od, &out); check_shape(r, be, ne);
   u8 acc = 0; u64 K_ = be[nbe-1], full[4];
   for (u64 k = 0; k < 4; k++) if (k < K_){ for (u64 t = 0; t < 4; t++) full[t] = t < ne ? idx[t] : 0; full[ne] = k;
     u64 pa = 0, pb = 0; for (u64 t = 0; t < NA; t++) pa = pa * sa[t] + (sa[t] == 1 ? 0 : full[t + nbe - NA]); for (u64 t = 0; t < NB; t++) pb = pb * sb[t] + (sb[t] == 1 ? 0 : full[t + nbe - NB]);
     acc = (u8)(acc + (u8)(da[pa] * db[pb])); }
-  ASSERT(out == acc, "vecdot element == sum over the last (broadcast) axis");
-  OBS(out); REACHED();
+  EL_ASSERT(out == acc, "vecdot element == sum over the last (broadcast) axis");
+  OBS(out); OBS(od); OBS(os[0]); REACHED();
 }
 #elif defined(R_TRACE)
 void h_trace(void){   /* offset 0, axes (0,1): sum_i a[i,i,...] */
+  sym_shapes();
   u64 e[1] = { sa[2] }, ne = NA - 2; draw(e, ne);
-  int r = CAT(k_trace_, NA)(sa, da, idx, ne, os, &od, &out); check_shape(r, e, ne);
+  int r = CAT(k_trace_, NA)(sa, da, idx, NIDX(ne), os, &od, &out); check_shape(r, e, ne);
   u64 m = sa[0] < sa[1] ? sa[0] : sa[1]; u8 acc = 0;
   for (u64 i = 0; i < 4; i++) if (i < m){ u64 ii[3] = { i, i, idx[0] }; acc = (u8)(acc + da[flat(ii, sa, NA)]); }
-  ASSERT(out == acc, "trace element == sum of the main diagonal");
-  OBS(out); REACHED();
+  EL_ASSERT(out == acc, "trace element == sum of the main diagonal");
+  OBS(out); OBS(od); OBS(os[0]); REACHED();
 }
 #elif defined(R_DOT) || defined(R_INNER)
 /* dot: sum over the last axis of a and the second-to-last of b (last if b is 1-d); inner: over both last axes */
 void h_dotlike(void){
+  sym_shapes();
   u64 e[4] = {0}, ne = 0, K_ = sa[NA-1];
 #if defined(R_DOT)
   u64 bk = NB >= 2 ? NB - 2 : 0;            /* contracted axis of b */
 #else
   u64 bk = NB - 1;
 #endif
-  ASSERT(sb[bk] == K_, "query shapes agree on the contracted extent");
+  AGREE(sb[bk] == K_, "query shapes agree on the contracted extent");
   for (u64 t = 0; t + 1 < NA; t++) e[ne++] = sa[t];
   for (u64 t = 0; t < NB; t++) if (t != bk) e[ne++] = sb[t];
   draw(e, ne);
 #if defined(R_DOT)
-  int r = K2(dot)(sa, da, sb, db, idx, ne, os, &od, &out);
+  int r = K2(dot)(sa, da, sb, db, idx, NIDX(ne), os, &od, &out);
 #else
-  int r = K2(inner)(sa, da, sb, db, idx, ne, os, &od, &out);
+  int r = K2(inner)(sa, da, sb, db, idx, NIDX(ne), os, &od, &out);
 #endif
   check_shape(r, e, ne);
   u8 acc = 0;
@@ -82,28 +119,30 @@ void h_dotlike(void){
     for (u64 t = 0; t + 1 < NA; t++) ia[t] = idx[p++]; ia[NA-1] = k;
     for (u64 t = 0; t < NB; t++) ib[t] = (t == bk) ? k : idx[p++];
     acc = (u8)(acc + (u8)(da[flat(ia, sa, NA)] * db[flat(ib, sb, NB)])); }
-  ASSERT(out == acc, "element == sum of products over exactly the contracted axis");
-  OBS(out); REACHED();
+  EL_ASSERT(out == acc, "element == sum of products over exactly the contracted axis");
+  OBS(out); OBS(od); OBS(os[0]); REACHED();
 }
 #elif defined(R_KRON)
 void h_kron(void){    /* same dim operands: out[i*b + k, ...] = a[i,...] * b[k,...] */
+  sym_shapes();
   u64 e[3] = {0}; for (u64 t = 0; t < NA; t++) e[t] = sa[t] * sb[t]; draw(e, NA);
-  int r = K2(kron)(sa, da, sb, db, idx, NA, os, &od, &out); check_shape(r, e, NA);
+  int r = K2(kron)(sa, da, sb, db, idx, NIDX(NA), os, &od, &out); check_shape(r, e, NA);
   u64 ia[3] = {0}, ib[3] = {0}; for (u64 t = 0; t < NA; t++){ ia[t] = idx[t] / sb[t]; ib[t] = idx[t] % sb[t]; }
-  ASSERT(out == (u8)(da[flat(ia, sa, NA)] * db[flat(ib, sb, NB)]), "kron element");
-  OBS(out); REACHED();
+  EL_ASSERT(out == (u8)(da[flat(ia, sa, NA)] * db[flat(ib, sb, NB)]), "kron element");
+  OBS(out); OBS(od); OBS(os[0]); REACHED();
 }
 #elif defined(R_TENSORDOT)
 #ifndef AXES
 #define AXES 1
 #endif
 void h_tensordot(void){   /* integer axes N: contract the last N axes of a with the first N axes of b, in order */
+  sym_shapes();
   u64 e[4] = {0}, ne = 0;
-  for (u64 t = 0; t < AXES; t++) ASSERT(sa[NA-AXES+t] == sb[t], "query shapes agree on the contracted extents");
+  for (u64 t = 0; t < AXES; t++) AGREE(sa[NA-AXES+t] == sb[t], "query shapes agree on the contracted extents");
   for (u64 t = 0; t + AXES < NA; t++) e[ne++] = sa[t];
   for (u64 t = AXES; t < NB; t++) e[ne++] = sb[t];
   draw(e, ne);
-  int r = CAT(CAT(CAT(CAT(k_tensordot, AXES), _), NA), NB)(sa, da, sb, db, idx, ne, os, &od, &out); check_shape(r, e, ne);
+  int r = CAT(CAT(CAT(CAT(k_tensordot, AXES), _), NA), NB)(sa, da, sb, db, idx, NIDX(ne), os, &od, &out); check_shape(r, e, ne);
   u64 K_ = 1; for (u64 t = 0; t < AXES; t++) K_ *= sb[t];
   u8 acc = 0;
   for (u64 k = 0; k < 16; k++) if (k < K_){ u64 ia[3] = {0}, ib[3] = {0}, p = 0, kk = k, c[2] = {0};
@@ -111,7 +150,7 @@ void h_tensordot(void){   /* integer axes N: contract the last N axes of a with 
     for (u64 t = 0; t + AXES < NA; t++) ia[t] = idx[p++]; for (u64 t = 0; t < AXES; t++) ia[NA-AXES+t] = c[t];
     for (u64 t = 0; t < AXES; t++) ib[t] = c[t]; for (u64 t = AXES; t < NB; t++) ib[t] = idx[p++];
     acc = (u8)(acc + (u8)(da[flat(ia, sa, NA)] * db[flat(ib, sb, NB)])); }
-  ASSERT(out == acc, "tensordot element == sum of products over exactly the contracted axes");
-  OBS(out); REACHED();
+  EL_ASSERT(out == acc, "tensordot element == sum of products over exactly the contracted axes");
+  OBS(out); OBS(od); OBS(os[0]); REACHED();
 }
 #endif
